@@ -528,7 +528,7 @@ func patchBadgerClock(gen string, replace map[string]string) {
 			infra("badger %s: patch site not found (library version changed?)", f)
 		}
 		if f == "txn.go" {
-			src = strings.Replace(src, line, "\tif err := fn(txn); err != nil {\n\t\treturn err\n\t}\n\tVerifBeforeCommit()\n\treturn txn.Commit()\n}", 1)
+			src = strings.Replace(src, line, "\tif err := fn(txn); err != nil {\n\t\treturn err\n\t}\n\tif err := VerifBeforeCommit(); err != nil {\n\t\treturn err\n\t}\n\treturn txn.Commit()\n}", 1)
 		} else {
 			src = strings.Replace(src, line, strings.Replace(line, "time.Now()", "VerifNow()", 1), 1)
 		}
@@ -538,7 +538,7 @@ func patchBadgerClock(gen string, replace map[string]string) {
 		if f == "structs.go" {
 			// (declared in a replaced file: files added to a module-cache package are not seen)
 			src += "\n// VerifNow is the clock record expiry is measured with (verification overlay only).\nvar VerifNow = time.Now\n"
-			src += "\n// VerifBeforeCommit runs in DB.Update between the closure and the commit (verification overlay only).\nvar VerifBeforeCommit = func() {}\n"
+			src += "\n// VerifBeforeCommit runs in DB.Update between the closure and the commit; an error it returns\n// is returned instead of committing, as a lost commit race would be (verification overlay only).\nvar VerifBeforeCommit = func() error { return nil }\n"
 		}
 		dst := filepath.Join(gen, "badger_"+f)
 		os.WriteFile(dst, []byte(src), 0644)
